@@ -39,12 +39,21 @@ TO_POP_REQ = ['forall(t, implies(0 <= t and t < len(to_pop) - 1, to_pop[t] < to_
               'forall(t, implies(0 <= t and t < len(to_pop), to_pop[t] >= t))']
 
 
+def _pop_loop(f, nth):
+    """the nth loop over the collected indices that pops molecules from a buffer (anchored by what it does, not by the exact
+    form of its header)"""
+    import ast
+    c = blocks.find_nodes(f, lambda n: isinstance(n, ast.For) and 'to_pop' in ast.unparse(n.iter)
+                          and any('.pop(' in ast.unparse(st) for st in n.body))
+    return [c[nth]] if len(c) > nth else []
+
+
 def pop_block(nth, L, self_attrs, extra_params):
     """`for i, j in enumerate(to_pop): m = <list>.pop(...)` - after the k-th pop the removed element is the molecule
     that was at original index to_pop[k] (the one selected as ejectable), and no IndexError can escape."""
     return Contract(
         PROP, FI + '::MoleculeIterator.__iter__', name='eject.pop[pooling_method=%d]' % nth,
-        block=lambda f: blocks.for_with_iter(f, 'enumerate(to_pop)', nth),
+        block=lambda f: _pop_loop(f, nth),
         params=dict({'self': ('obj', 'MoleculeIterator', self_attrs, FI), 'to_pop': ('symlist', (INT,), None)},
                     **extra_params),
         requires=[IDENT.format(L=L)] + [r.format(L=L) for r in TO_POP_REQ],
@@ -347,4 +356,5 @@ def extra_units():
     assignment block of MoleculeIterator.__iter__ (C06's units, re-verified under this property)"""
     from contracts import c06
     from pyvc.units import share
-    return [share(u, PROP) for u in c06.UNITS if getattr(u, 'name', '').startswith('MoleculeIterator.assign_fragment')]
+    return [share(u, PROP) for u in c06.UNITS if getattr(u, 'name', '').startswith('MoleculeIterator.assign_fragment')
+            or getattr(u, 'name', '') == 'Molecule.add_fragment']
